@@ -180,7 +180,8 @@ static int transition(const uint16_t *hist, int d, int opi, char *ckey, int verb
     for (int i = 0; i < d; i++) { snprintf(after, sizeof after, "step %d (op %d)", i, hist[i]); apply(t, &m, &OPS[hist[i]], verbose, after); if (verbose) observe(t, &m, after); }
     vc_asan_check();   /* reports raised by the history prefix belong to the transitions that ended in those ops */
     snprintf(after, sizeof after, "op %d", opi);
-    if (apply(t, &m, &OPS[opi], 1, after) == 1) { t->free(t); return 1; }
+    for (int q = 0; q < 3; q++) { size_t sz = 0; void *d = t->get(t, NAMES[q], &sz, true); if (d) sm_hold(d, d, sz, "qlisttbl_get(newmem) taken before the operation"); }
+    if (apply(t, &m, &OPS[opi], 1, after) == 1) { sm_release_held(); t->free(t); return 1; }
     canon(t, ckey, after);
     observe(t, &m, after);
     saveload(t, &m, OPT, after);
